@@ -41,7 +41,7 @@ var Check = &ev.Check{
 	Level: "fault_enumeration",
 	Rule: "base messages (<=64 bytes): struct-wrapped C02 depth-1/2 container values, valid plugin/api messages (HandshakeResponse, GenerateServiceRequest/Response, Service), the reference encodings (<=96 bytes) of the baseline and single-field deviations of every cell-universe type for the generated decoders, each bare, in a strict and a legacy envelope, and framed; " +
 		"fault = the 4 bytes at every offset (a superset of every position where the format carries a length/count) set to each of {2^16, 2^20+1, 2^24, 2^27, 2^28, 2^28+1, 2^29, 2^29+1, 2^30, 2^30+1, 2^31-1} (values above 2^24 only for (API, position kind) classes that stayed within bounds at 2^24, so that violating classes are found without killing the worker; 2^28..2^30 are where count*width wraps 32 bits); " +
-		"x 15 decoding APIs (Decode+force, Decode+wire.*ToSlice, Decode+EvaluateValue, ReadValue, primitive stream walk, Skip seek/stream, DecodeEnveloped, ReadEnvelopeBegin, DecodeRequest, ReadRequest, frame.Reader.Read, generated FromWire(Decode) and generated Decode for 4 plugin/api types). " +
+		"x 18 decoding APIs (the stream walk, ReadEnvelopeBegin and ReadRequest also over a seekable reader; Decode+force, Decode+wire.*ToSlice, Decode+EvaluateValue, ReadValue, primitive stream walk, Skip seek/stream, DecodeEnveloped, ReadEnvelopeBegin, DecodeRequest, ReadRequest, frame.Reader.Read, generated FromWire(Decode) and generated Decode for 4 plugin/api types). " +
 		"Wire-level messages additionally get 10 small negative values (-1..-16) in every window. Oracle per call: processor time <= 3 s (reported when the allocation bound holds), TotalAlloc delta <= 12 MiB + 64*N and reader calls <= 16 + 4*N. A case is (message, offset, magnitude); non-trivial = the mutated window overlaps a real length/count field of the reference encoding.",
 	Prepare: func(s *ev.S) error {
 		_, err := cells.Prepare(s, cells.Options{Slim: true})
@@ -198,6 +198,30 @@ var apis = []apiFn{
 	{"ReadRequest", func(msg []byte) int {
 		cr := &chunk.Reader{B: msg}
 		binary.Default.ReadRequest(context.Background(), wire.Call, cr, bodyReader{})
+		return cr.Reads
+	}},
+	// the streaming entry points once more over a reader that can seek (the stream
+	// reader then skips by seeking, and anything that treats the two kinds of reader
+	// differently has a second code path)
+	{"stream-walk[seekable]", func(msg []byte) int {
+		cr := &chunk.Reader{B: msg}
+		sr := binary.Default.Reader(chunk.Seekable{Reader: cr})
+		wirex.StreamRead(sr, tbin.Struct)
+		sr.Close()
+		return cr.Reads
+	}},
+	{"ReadEnvelopeBegin[seekable]", func(msg []byte) int {
+		cr := &chunk.Reader{B: msg}
+		sr := binary.Default.Reader(chunk.Seekable{Reader: cr})
+		if _, err := sr.ReadEnvelopeBegin(); err == nil {
+			wirex.StreamRead(sr, tbin.Struct)
+		}
+		sr.Close()
+		return cr.Reads
+	}},
+	{"ReadRequest[seekable]", func(msg []byte) int {
+		cr := &chunk.Reader{B: msg}
+		binary.Default.ReadRequest(context.Background(), wire.Call, chunk.Seekable{Reader: cr}, bodyReader{})
 		return cr.Reads
 	}},
 	{"frame.Reader.Read", func(msg []byte) int {
